@@ -99,7 +99,7 @@ def dummy_block_spec(rng, pitch, coolant="Sodium"):
 SHAPE_POOL = ["Circle", "Hexagon", "Rectangle", "Square", "Triangle", "SolidRectangle", "Helix", "HoledHexagon", "HoledRectangle", "HoledSquare", "HexHoledCircle", "UnshapedComponent"]
 
 
-def generic_block_spec(rng, nshapes=None, coolant="Sodium", hot=True):
+def generic_block_spec(rng, nshapes=None, coolant="Sodium", hot=True, derived=True):
     """A hex block of arbitrary extruded shapes + DerivedShape coolant + bounding duct. Only areas matter."""
     nshapes = nshapes or rng.randint(1, 6)
     comps = []
@@ -164,7 +164,8 @@ def generic_block_spec(rng, nshapes=None, coolant="Sodium", hot=True):
     duct_op = duct_ip + u(.2, .6)
     pitch = duct_op + u(.1, .5)
     Tc = u(350, 500) if hot else 25.0
-    comps.append({"name": "coolant", "shape": "DerivedShape", "material": coolant, "Tinput": Tc, "Thot": Tc})
+    if derived:  # derived=False: stated shapes only, the rest of the cell is empty (hot and cold totals then differ)
+        comps.append({"name": "coolant", "shape": "DerivedShape", "material": coolant, "Tinput": Tc, "Thot": Tc})
     comps.append({"name": "duct", "shape": "Hexagon", "material": "HT9", "Tinput": 25.0, "Thot": Tc, "ip": duct_ip, "op": duct_op, "mult": 1})
     if rng.random() < .7:
         comps.append({"name": "intercoolant", "shape": "Hexagon", "material": coolant, "Tinput": Tc, "Thot": Tc, "ip": "duct.op", "op": pitch, "mult": 1})
